@@ -354,7 +354,7 @@ package kcache
 @*/
 
 /*@ func (*kcache.filterSubscription).run
-  props C08 C06 C07 C11 C12
+  props C08 C06 C07 C11 C12 C02 C05
   theory actors filters
   requires [valid-s] (and (not (= {s} vnil)) (not (= {s.parent} vnil)) (not (= {s.cache} vnil)) (not (= {s.lc} vnil))
                         (not (= {s.log} vnil)) (not (= {s.readych} vnil)) (not (= {s.refilterch} vnil)) (not (= {s.outch} vnil))
